@@ -81,6 +81,22 @@ class Computation(Generic[T]):
         """Get the still pending future, or None if there is none."""
         return self._value if self._status is _PENDING else None
 
+    @property
+    def settled_value(self) -> T | None:
+        """Get the value produced so far, or None if there is none (yet).
+
+        This is the memoized value of a fulfilled computation, or the result of
+        a pending future that has just succeeded and is not memoized yet.
+        """
+        status = self._status
+        if status is _FULFILLED:
+            return self._value
+        if status is _PENDING:
+            future = self._value
+            if future.done() and not future.cancelled() and future.exception() is None:
+                return future.result()
+        return None
+
     def result(self) -> AwaitableOrValue[T]:
         """Get the memoized result, priming the computation if necessary.
 
